@@ -1,12 +1,13 @@
 #!/bin/bash
 # Offline setup: warm the build cache by compiling every property package
-# against /repo's current working tree.  Uses files on disk only.
+# against /repo's current working tree.  Uses files on disk only.  A package
+# that does not build is reported but does not fail the setup: every check
+# rebuilds its own package anyway.
 cd "$(dirname "$0")/.." || exit 1
 export GOFLAGS=-mod=mod GOPROXY=off GOSUMDB=off GOTOOLCHAIN=local
 mkdir -p out/bin evidence
-rc=0
 for d in props/*/; do
   n=$(basename "$d")
-  go test -c -tags verif -vet=off -o "out/bin/$n.test" "./$d" || rc=1
+  go test -c -tags verif -vet=off -o "out/bin/$n.test" "./$d" || echo "setup: warning: $d does not build"
 done
-exit $rc
+exit 0
